@@ -1,0 +1,28 @@
+//go:build verif
+
+/*
+Copyright 2026 The Volcano Authors.
+
+Licensed under the Apache License, Version 2.0 (the "License");
+you may not use this file except in compliance with the License.
+You may obtain a copy of the License at
+
+    http://www.apache.org/licenses/LICENSE-2.0
+
+Unless required by applicable law or agreed to in writing, software
+distributed under the License is distributed on an "AS IS" BASIS,
+WITHOUT WARRANTIES OR CONDITIONS OF ANY KIND, either express or implied.
+See the License for the specific language governing permissions and
+limitations under the License.
+*/
+
+package job
+
+import v1 "k8s.io/api/core/v1"
+
+// VerifSyncTask runs the resync worker's syncTask for one pod: what
+// processResyncTask does with a pod that resyncTask queued after a failed
+// delete (GET the pod, then cache.DeletePod on NotFound or cache.UpdatePod
+// with the fetched object).  The rate-limited errTasks queue itself is not
+// driven: the harness knows which pods were queued from its own fault plan.
+func (v *VerifJobController) VerifSyncTask(pod *v1.Pod) error { return v.cc.syncTask(pod) }
